@@ -791,7 +791,7 @@ def reference(prog):
 # ---------------------------------------------------------------------------
 
 FLAGS = ["objlike", "fnlike", "variadic", "va_opt", "stringify", "paste", "nested", "multiline", "empty_args",
-         "paren_commas", "lit_names", "macro_as_arg", "self_ref", "mutual_ref", "wrapped_self_ref", "undef_redef", "push_pop",
+         "paren_commas", "lit_names", "macro_as_arg", "self_ref", "mutual_ref", "wrapped_self_ref", "op_adjacency", "undef_redef", "push_pop",
          "cmdline"]
 
 IDENTS = ["a", "b", "c", "d", "e", "foo", "bar", "baz", "n", "k", "v", "w0", "int", "const", "q"]
@@ -801,6 +801,16 @@ BIN = ["+", "-", "*", "/", "%", "<", ">", "==", "!=", "<=", ">=", "&&", "||", "&
 UN = ["-", "!", "~", "*", "&", "++", "--"]
 PUNCT_PASTES = [("+", "+"), ("-", "-"), ("-", ">"), ("<", "<"), (">", ">"), ("<", "="), (">", "="), ("=", "="),
                 ("!", "="), ("&", "&"), ("|", "|"), ("+", "="), ("<<", "="), ("-", "=")]
+
+
+TIGHT = "\0"      # pseudo token for Gen.render: write the neighbours without white space between them
+
+# operators that substitution can make adjacent: (left, right) read as something else when written together
+OP_PAIRS = [(">", ">"), ("<", "<"), ("-", "-"), ("+", "+"), ("-", ">"), ("<", "="), (">", "="), ("=", "="), ("!", "="),
+            ("&", "&"), ("|", "|"), ("+", "="), ("-", "="), ("*", "="), ("/", "="), ("%", "="), ("&", "="), ("|", "="),
+            ("^", "="), (".", "."), ("..", "."), (".", "*"), ("/", "/"), ("/", "*"), ("<<", "="), (">>", "="),
+            ("-", ">*"), ("->", "*"), ("<=", ">"), ("<", "=>"), (">", ">="), (">", ">>"), ("<", "<="), ("-", "--"),
+            ("+", "++"), ("&", "&&"), ("<", "%"), ("%", ">")]
 
 
 class MacroInfo(object):
@@ -829,11 +839,15 @@ class Gen(object):
         s = ""
         prev = None
         depth = 0
+        glue = False
         for t in toks:
+            if t == TIGHT:
+                glue = True          # no white space between the neighbours (if the source allows it)
+                continue
             if prev is not None:
                 need = not glue_ok(prev, t)
                 # a function-like macro name and its '(' may be separated by white space at a use, fine
-                if need or r.random() > tight:
+                if need or (not glue and r.random() > tight):
                     w = " "
                     x = r.random()
                     if x < 0.08:
@@ -846,6 +860,7 @@ class Gen(object):
                         w = r.choice(["\n", "\n  ", " \n", "\n\t", "/**/", " /* c, ( */ ", "/* ) */"])
                     s += w
             s += t
+            glue = False
             if t == "(":
                 depth += 1
             elif t == ")":
@@ -1250,6 +1265,10 @@ class Gen(object):
                         texts[i] = txt
                     else:
                         live.discard(i)
+        if fl.get("op_adjacency"):
+            self.adjacency_kit(units, r.choice(OP_PAIRS))
+            if r.random() < 0.5:
+                self.adjacency_kit(units, r.choice(OP_PAIRS), "J")
         if wrapped:
             depth, mutual = wrapped
             toks = [self.macros[depth].name]
@@ -1261,6 +1280,36 @@ class Gen(object):
         for _ in range(r.randint(1, 3)):
             use()
         return {"units": units}
+
+    def adjacency_kit(self, units, pair, pre="K"):
+        """definitions and uses in which substitution makes the operators a and b adjacent, with no white space
+        in between: argument end / replacement text, replacement text / argument begin, end of a nested
+        expansion / following text, object-like macros next to text and next to each other.  A conforming
+        preprocessor keeps them two tokens."""
+        r = self.r
+        a, b = pair
+        if a == "..":
+            a_toks = [".", TIGHT, "."]
+        else:
+            a_toks = [a]
+        K = [pre + str(i) for i in range(5)]
+        e = lambda: r.choice(IDENTS)
+        defs = [(K[0] + "(x)", r.choice([[], [e()]]) + a_toks + [TIGHT, "x"] + r.choice([[], [e()]])),
+                (K[1] + "(x)", r.choice([[], [e()]]) + ["x", TIGHT, b] + r.choice([[], [e()]])),
+                (K[2], r.choice([[], [e()]]) + a_toks),
+                (K[3], [b] + r.choice([[], [e()]])),
+                (K[4] + "(x)", ["x"])]
+        for head, body in defs:
+            units.append({"k": "def", "t": "#define " + head + " " + self.render(body)})
+        uses = [[K[0], "(", b, ")"], [K[0], "(", b, e(), ")"], [K[1], "("] + a_toks + [")"],
+                [K[1], "(", e()] + a_toks + [")"], [e(), K[2], TIGHT, b, e()], [e()] + a_toks + [TIGHT, K[3], e()],
+                [K[2], TIGHT, K[3]], [K[4], "(", e()] + a_toks + [")", TIGHT, b],
+                [K[4], "(", K[1], "("] + a_toks + [")", ")"], [K[0], "(", K[3], ")"], [K[1], "(", K[2], ")"],
+                [K[4], "("] + a_toks + [")", TIGHT, K[4], "(", b, ")"],
+                [K[4], "(", K[2], TIGHT, K[3], ")"], [K[4], "(", K[4], "(", e()] + a_toks + [")", TIGHT, b, e(), ")"]]
+        r.shuffle(uses)
+        for u in uses[:r.randint(5, len(uses))]:
+            units.append({"k": "use", "t": self.render(r.choice([[], ["int", "v", "="]]) + u + [";"])})
 
     def script_wrapped(self, depth, mutual):
         r = self.r
@@ -1337,7 +1386,7 @@ class Gen(object):
         return [r.choice(BIN)] + head + args
 
 
-PROB = {"wrapped_self_ref": 0.15, "objlike": 0.6, "fnlike": 0.6, "self_ref": 0.15, "mutual_ref": 0.15, "lit_names": 0.2, "cmdline": 0.25,
+PROB = {"wrapped_self_ref": 0.15, "op_adjacency": 0.15, "objlike": 0.6, "fnlike": 0.6, "self_ref": 0.15, "mutual_ref": 0.15, "lit_names": 0.2, "cmdline": 0.25,
         "push_pop": 0.25, "undef_redef": 0.3, "va_opt": 0.25, "variadic": 0.35, "stringify": 0.3, "paste": 0.3,
         "empty_args": 0.3, "paren_commas": 0.3, "macro_as_arg": 0.3, "nested": 0.4, "multiline": 0.3}
 
